@@ -13,10 +13,17 @@ let obs_of_iout (o : iout) : obs list =
   | ["END"] -> [ObEnd (n_of_int o.t)]
   | _ -> []
 
-(* (property, clause) failures of one step *)
-let step (cfg : gw_cfg) (s : gw_state) (ev : gw_event) (iouts : iout list) : (string * string) list =
+(* what the glue remembers along one history besides the monitor: the classes of histories the
+   partial theorems exclude (recorded findings) *)
+type hstate = { mon : mon; cid_changed : bool; pinger_outlived : bool }
+let hstate_init = { mon = mon_init; cid_changed = false; pinger_outlived = false }
+
+(* (property, clause) failures of one step; s' is the model's state after the step *)
+let step (cfg : gw_cfg) (s : gw_state) (s' : gw_state) (ev : gw_event) (iouts : iout list) (h : hstate)
+  : (string * string) list * hstate =
   let os = List.concat_map obs_of_iout iouts in
   let tag p l = List.map (fun c -> (p, "clause" ^ string_of_int (int_of_n c))) l in
+  let tagc p cls l = List.map (fun c -> (p, "clause" ^ string_of_int (int_of_n c) ^ cls)) l in
   let c24 =
     (* one failure per violated MQTT 3.1.1 rule, so that known findings match rule by rule *)
     List.concat_map (fun (o : iout) ->
@@ -26,6 +33,29 @@ let step (cfg : gw_cfg) (s : gw_state) (ev : gw_event) (iouts : iout list) : (st
         | "MQGARBAGE" :: _ -> [("C24", "invalid-mqtt rule=garbage kind=?")]
         | _ -> []) iouts in
   let c24m = if c24 = [] then tag "C24" (chk_C24 os) else [] in
-  tag "C14" (chk_C14 ev os) @ tag "C01" (chk_C01 cfg s ev os) @ tag "C23" (chk_C23 os) @ c24 @ c24m
-  @ tag "C03" (chk_C03 cfg s ev os) @ tag "C04" (chk_C04 cfg s ev os) @ tag "C07" (chk_C07 cfg s ev os)
-  @ tag "C08" (chk_C08 cfg s ev os) @ tag "C09" (chk_C09 cfg s ev os) @ tag "C11" (chk_C11 cfg s ev os)
+  let (m', mf) = mon_step cfg s s' ev os h.mon in
+  (* C04: the peer re-CONNECTed under another client ID after topic IDs were in use (cid_stable fails) *)
+  let cid_changed = h.cid_changed ||
+                    (s'.gw_client_id <> s.gw_client_id && (s.gw_handed_out <> [] || nmap_to_list s.gw_registered <> [])) in
+  (* C34: a sleep pinger is scheduled while the session leaves the sleep or a new sleep is announced *)
+  let pinger = List.exists (fun t -> match t.tm_kind with TmPing _ -> true | _ -> false) s.gw_timers in
+  let resleep = (match ev_packet ev with Some (Disconnect d) -> int_of_n d > 0 | _ -> false) in
+  let pinger_outlived = h.pinger_outlived || (pinger && (s'.gw_st <> Asleep || resleep)) in
+  let st = (match s.gw_st with Disconnected -> "disconnected" | Active -> "active" | Asleep -> "asleep" | Awake -> "awake") in
+  let mfs = List.map (fun (p, c) ->
+      let p = int_of_n p in
+      (Printf.sprintf "C%02d" p,
+       Printf.sprintf "clause%d state=%s%s" (int_of_n c) st
+         (if p = 34 && pinger_outlived then " class=pinger-outlives-sleep" else ""))) mf in
+  let asleep_cx = " class=asleep-in-connect-exchange" in
+  (tag "C14" (chk_C14 ev os) @ tag "C01" (chk_C01 cfg s ev os) @ tag "C23" (chk_C23 os) @ c24 @ c24m
+   @ tag "C03" (chk_C03 cfg s ev os)
+   @ tagc "C04" (if cid_changed then " class=client-id-changed" else "") (chk_C04 cfg s ev os)
+   @ tag "C07" (chk_C07 cfg s ev os)
+   @ tagc "C08" (if c08_excluded cfg s ev then asleep_cx else "") (chk_C08 cfg s ev os)
+   (* the wake-up flush of a client that fell asleep inside its own connect exchange writes the queued
+      WILL*REQ: the per-step clause of C09 cannot attribute it (C11 checks the flush, see DESIGN.md) *)
+   @ (if c09_excluded cfg s ev then [] else tag "C09" (chk_C09 cfg s ev os))
+   @ tag "C11" (chk_C11 cfg s ev os)
+   @ tag "C02" (chk_C02 cfg s s' ev os) @ mfs,
+   { mon = m'; cid_changed; pinger_outlived })
